@@ -187,16 +187,29 @@ impl<'l> CelCompiler<'l> {
             let after_true_clause = self.new_label();
             let end_label = self.new_label();
 
+            // cond TEST DUP JMPF(else) POP <true> JMP(end)
+            // else: DUP NOT JMPF(end) POP <false>
+            // end:
+            //
+            // TEST turns the condition into its truthiness and keeps a failure as it
+            // is. JMPF also jumps on a failure, so the else path checks again: NOT maps
+            // false to true and keeps a failure, which then leaves the failed
+            // condition as the result instead of evaluating the false clause.
             CompiledProg {
                 inner: NodeValue::Bytecode(
                     expr_node
                         .into_bytecode()
                         .into_iter()
                         .chain(
-                            [PreResolvedCodePoint::JmpCond {
-                                when: JmpWhen::False,
-                                label: after_true_clause,
-                            }]
+                            [
+                                PreResolvedCodePoint::Bytecode(ByteCode::Test),
+                                PreResolvedCodePoint::Bytecode(ByteCode::Dup),
+                                PreResolvedCodePoint::JmpCond {
+                                    when: JmpWhen::False,
+                                    label: after_true_clause,
+                                },
+                                PreResolvedCodePoint::Bytecode(ByteCode::Pop),
+                            ]
                             .into_iter(),
                         )
                         .chain(true_clause_bytecode.into_iter())
@@ -204,6 +217,13 @@ impl<'l> CelCompiler<'l> {
                             [
                                 PreResolvedCodePoint::Jmp { label: end_label },
                                 PreResolvedCodePoint::Label(after_true_clause),
+                                PreResolvedCodePoint::Bytecode(ByteCode::Dup),
+                                PreResolvedCodePoint::Bytecode(ByteCode::Not),
+                                PreResolvedCodePoint::JmpCond {
+                                    when: JmpWhen::False,
+                                    label: end_label,
+                                },
+                                PreResolvedCodePoint::Bytecode(ByteCode::Pop),
                             ]
                             .into_iter(),
                         )
